@@ -49,11 +49,11 @@ func init() {
 
 type respPlan struct {
 	Status   int
-	Body     int   // body length
-	ErrAt    int   // body read error after ErrAt bytes (-1: none)
-	TransErr bool  // transport error instead of a response
-	ParkBody bool  // park inside the body reader (lets the controller pass time mid-body)
-	Chunk    int   // read chunk size (0 = whatever the caller asks)
+	Body     int  // body length
+	ErrAt    int  // body read error after ErrAt bytes (-1: none)
+	TransErr bool // transport error instead of a response
+	ParkBody bool // park inside the body reader (lets the controller pass time mid-body)
+	Chunk    int  // read chunk size (0 = whatever the caller asks)
 }
 
 type atkConfig struct {
@@ -77,14 +77,14 @@ type atkConfig struct {
 	Plans      []respPlan
 	// action weights
 	wRelease, wConsume, wStop, wTime int
-	PreSleep time.Duration
+	PreSleep                         time.Duration
 }
 
 var waitTable = []time.Duration{0, time.Millisecond, 50 * time.Millisecond, time.Second, time.Nanosecond, time.Hour, -time.Millisecond, 7 * time.Microsecond}
 
 func genConfig(tape *simrt.Tape, focus string) *atkConfig {
 	c := &atkConfig{Focus: focus, StopAtCall: -1, TgtErrAt: -1, Skips: map[int]int{}}
-	c.M = 1 + tape.Biased(4, 1, 3)        // 1..4
+	c.M = 1 + tape.Biased(4, 1, 3) // 1..4
 	c.W = []int{1, 0, 2, 3, 4, 6}[tape.Choose(6)]
 	if tape.Prob(1, 25) { // a long configuration with many workers
 		c.M = 8 + tape.Choose(57)
@@ -388,22 +388,22 @@ type attackSim struct {
 
 	atkStart time.Duration // fake time at which Attack was called
 
-	P          int // pace calls answered without stop
-	paceCall   []time.Duration
-	paceWait   []time.Duration
+	P           int // pace calls answered without stop
+	paceCall    []time.Duration
+	paceWait    []time.Duration
 	paceStopped bool
 	prevElapsed time.Duration
-	S          int // hits started
-	hits       []*hitRec
-	bySeq      map[int64]int // seq -> hit index (from the transport)
-	C          int
-	seen       map[uint64]resultSnap
-	closed     bool
-	closedStep int
-	startSlack time.Duration // upper bound of (vegeta's own start instant - atkStart)
-	haveSlack  bool
-	durTrig    bool
-	simEnd     time.Duration
+	S           int // hits started
+	hits        []*hitRec
+	bySeq       map[int64]int // seq -> hit index (from the transport)
+	C           int
+	seen        map[uint64]resultSnap
+	closed      bool
+	closedStep  int
+	startSlack  time.Duration // upper bound of (vegeta's own start instant - atkStart)
+	haveSlack   bool
+	durTrig     bool
+	simEnd      time.Duration
 
 	trigStep   int // first step at which a non-Stop stop trigger existed (-1 none)
 	anyTrigger bool
@@ -414,13 +414,13 @@ type attackSim struct {
 	loopDeadline   time.Duration // when the loop's sleep ends (-1 unknown/none)
 	loopReleasedAt int           // step of the last pace release (non-stop)
 
-	drain      bool
-	drainSteps int
-	drainSel   int
-	lastRel    int
-	bpSkips    map[int]int
+	drain       bool
+	drainSteps  int
+	drainSel    int
+	lastRel     int
+	bpSkips     map[int]int
 	starterDone bool
-	consIdle   []*simrt.Arrival
+	consIdle    []*simrt.Arrival
 
 	stats map[string]int
 }
@@ -448,7 +448,9 @@ func runAttack(t *testing.T, rc *simrt.Config, prop string, tape *simrt.Tape, ke
 	if s.w != nil {
 		s.w.Deactivate()
 	}
-	if pv != nil && s.viol == nil {
+	if pv == errRaceReported {
+		out.Race = true
+	} else if pv != nil && s.viol == nil {
 		msg := fmt.Sprint(pv)
 		class := "C02.bubble-panic"
 		if strings.Contains(msg, "blocked goroutines remain") {
